@@ -135,5 +135,40 @@ kf("C13", "C13-mem2reg-not-idempotent", "running mem2reg (or the DXIL pipeline) 
 kf("C13", "C13-dce-after-inline", "dce applied to an inlined module removes or reorders statements differently on a second run and, for a callee that only calls another helper (F2/callee/H), changes the computed result",
    ["C13|not-idempotent|dce|*", "C13|behaviour|dce|different-result|F2/callee"])
 
+# ---------------------------------------------------------------- C18 (DXIL container / bitcode)
+kf("C18", "C18-atomic-ordering-code", "atomicrmw/cmpxchg records carry ordering code 7 (the in-memory enum value) instead of the bitcode AtomicOrderingCodes value 6 for seq_cst",
+   ["C18|func.enum|*ordering code # is not an AtomicOrderingCodes value*|*"])
+kf("C18", "C18-signature-rows-over-32", "vertex shaders with more than 32 inputs (msl-vpt-formats-x*) get signature registers/rows >= 32 in ISG1 and PSV0; the D3D limit of 32 rows is not enforced",
+   ["C18|sig.element|*|corpus/msl-vpt-formats-x*", "C18|psv.sig-elements|*|corpus/msl-vpt-formats-x*"])
+kf("C18", "C18-psv-barycentrics-count", "@builtin(barycentric): PSV0 declares more signature elements than it stores (part too short for the declared element table)",
+   ["C18|psv.layout|*|corpus/barycentrics"])
+kf("C18", "C18-binding-array-range-overlap", "binding-arrays with the default binding map: unbounded descriptor ranges overlap the following resources in dx.resources metadata",
+   ["C18|dxmeta.resource-overlap|*|corpus/binding-arrays"])
+kf("C18", "C18-int64-constants", "int64 shader: 64-bit literal emitted under an i32 SETTYPE, i32/i64 operand mixes, extractvalue index out of range",
+   ["C18|module.const-range|*|corpus/int64", "C18|func.type-check|*|corpus/int64", "C18|func.*|*|corpus/atomicOps-int64"])
+kf("C18", "C18-f16-records", "f16 shader: cast record with a forward-referenced operand and no type operand, half/float/CBufRet operand mixes",
+   ["C18|func.record|*|corpus/f16", "C18|func.type-check|*|corpus/f16"])
+kf("C18", "C18-load-store-through-handle", "an element store/load on a storage-buffer matrix or a read-modify-write of a storage element is emitted as an LLVM load/store whose pointer operand is a %dx.types.Handle",
+   ["C18|func.type-check|*non-pointer type %dx.types.Handle|*"])
+kf("C18", "C18-cbufret-bitcast", "a uniform matCx2/matCx3 column selected by a dynamic index is emitted as a bitcast/GEP on a %dx.types.CBufRet value",
+   ["C18|func.type-check|*%dx.types.CBufRet.f#*|corpus/hlsl_mat_cx*", "C18|func.type-check|*GEP base of type %dx.types.Handle is not a pointer|corpus/hlsl_mat_cx*"])
+kf("C18", "C18-pointer-used-as-value", "pointer-typed locals/parameters (ptr<function>/<private> arguments, let-bound pointers, private arrays) are used where a value is required: load from a non-pointer, float* passed as float, value used before its definition in the same block",
+   ["C18|func.type-check|*load from non-pointer type i#|*", "C18|func.type-check|*load from non-pointer type float|*", "C18|func.ssa|*defined later in the same block*|*",
+    "C18|func.type-check|*has type float#, the record implies float|*", "C18|func.type-check|*has type float*, the record implies float|*", "C18|func.type-check|*invalid pointer bitcast|*"])
+kf("C18", "C18-nested-array-of-struct-access", "dynamic access chains into arrays of structs nested in a storage struct (nested_struct_access_chains) are emitted against aggregate pointee types: load/store value types do not match the pointee, aggregate-to-int bitcast",
+   ["C18|func.type-check|*|nested_struct_access_chains"])
+kf("C18", "C18-int-float-operand-mix", "integer `%` on u32 vectors (and some constructor paths) produce binop records whose operands mix float and i32 values",
+   ["C18|func.type-check|*has type float, the record implies i#|*", "C18|func.type-check|*has type i#, the record implies float|*"])
+kf("C18", "C18-i8-constant-argument", "dx.op calls for countLeadingZeros/sign/extractBits/insertBits on 4-component vectors pass an i8-typed constant where the callee expects i32",
+   ["C18|func.type-check|*has type i#, the record implies i#|F1/call/*"])
+kf("C18", "C18-bool-width", "boolean values are materialised inconsistently as i1 and i32: zext/sext from i32 to i32 for `!` on bool vectors, i32 stored through an i1 pointer for `&&`",
+   ["C18|func.type-check|*invalid zext/sext|*", "C18|func.type-check|*does not match pointee type i#|*"])
+kf("C18", "C18-switch-phi-dominance", "switch statements assigning a variable produce phi nodes whose incoming values are defined in non-dominating blocks / forward references of the wrong type (debug-symbol-terrain)",
+   ["C18|func.ssa|*phi*|corpus/debug-symbol-*", "C18|func.type-check|*forward reference*|corpus/debug-symbol-*"])
+kf("C18", "C18-gep-flattened-struct", "a nested struct local is flattened but the member GEP keeps the nested source element type (corpus/access)",
+   ["C18|func.type-check|*explicit GEP source element type*|corpus/access", "C18|func.type-check|*GEP index # steps into non-aggregate type*|corpus/access"])
+kf("C18", "C18-cbuffer-resource-id", "with a workgroup/private mix, the cbuffer record in dx.resources has resource id 1 instead of the zero-based index in its class list",
+   ["C18|dxmeta.resources|*|private_workgroup_init_and_const_arrays"])
+
 json.dump(K, open("known_findings.json", "w"), indent=1)
 print(len(K), "entries")
